@@ -121,6 +121,9 @@ class Gen:
             op = r.choice(["<<", "<<-"])
             body = r.choice(["", "line\n", "a $x\n", "\n", "  two\nlines\n", "E2\n", "\tt\n", "$(c)\n", "`c`\n", "a\\\nb\n", "#nc\n", "\\$x \\\\\n",
                              ] + (["$(\n\techo x\n)\n", "`a\nb`\n", "x $((1 +\n2)) y\n", "$(a; b\n c)\n"] if self.ml_bodies else []))
+            if q == "" and r.random() < 0.08:
+                # a continued line that spells the delimiter is not the delimiter line
+                body = r.choice(["k\\\n", "k \\\n"]) + delim + "\nz\n"
             if op == "<<-":
                 body = "".join("\t" + ln + "\n" for ln in body.split("\n")[:-1])
             tab = r.random() < 0.5
